@@ -263,6 +263,18 @@ def check(ctx):
         ms = e['kwargs'].get('max_steps')
         ok, msg = check_degree(ms.mono if ms is not None else None, (0, 0, 0))
         ctx.ob('R5', fj, 'max_steps', ok, 'window in frames is dimensionless: 1 / (frequency * time step)' if ok else msg)
+    for e in cons[:1]:
+        lat = e['kwargs'].get('lattice')
+        if lat is None:
+            ctx.ob('R4', fj, 'lattice=', None, 'lattice handed to the collective analysis not found')
+        else:
+            fm = lat.from_matrix
+            from_traj = lat.ty == 'Lattice' and fm is not None and fm.store == 'attr:Trajectory.lattice'
+            from_sites = lat.ty == 'Lattice' and (lat.of_struct or (lat.sx or '').endswith('sites.lattice') or (fm is not None and (fm.store or '').startswith('attr:Structure')))
+            ctx.ob('R4', fj, e['node'], True if from_traj else (False if from_sites else None),
+                   'distances are measured in the simulation cell of the trajectory' if from_traj else
+                   ('the cut-off is judged in the reference cell of the sites structure, not in the simulation cell: when the two cells differ '
+                    '(a relaxed or scaled reference) pairs are accepted / rejected at the wrong distance' if from_sites else 'origin of the lattice not derivable'))
     if not cons:
         ctx.ob('R5', fj, 'max_steps', None, 'Collective construction not found')
     check_counts(ctx, it, fi, coll, start)
